@@ -4,9 +4,13 @@ C17 — packing directives are honoured exactly in the on-disk layout.
 Proof: lean/Sqfs/Props/C17.lean (sort-file model + specPack, for all inputs).
 Tie (every run, real code compiled from the working tree with ASan+UBSan):
   A. sort file alone: the real fstree_sort_files() (harness/h_c17.c links bin/gensquashfs/src/sort_by_file.c
-     unchanged) vs `sqfsmodel c17 sort` on generated file lists x sort files; libc's fnmatch answers the model's
-     match queries.  Independently of the model, the theorem statements (permutation, ascending, stable, first match
-     wins) are evaluated on the implementation's answer.
+     unchanged) vs `sqfsmodel c17 sort` on generated file lists x sort files; libc's fnmatch, called with the flag
+     word the man page documents (FNM_PATHNAME for glob, 0 for glob_no_path), answers the model's match queries.
+     Independently of the model, the theorem statements (permutation, ascending, stable, first match wins) are
+     evaluated on the implementation's answer.
+  A2. glob matching alone: one-line sort files `1 [glob|glob_no_path] "pattern"` through the real fstree_sort_files
+     (which files get priority 1) vs a hand-written table, libc with the documented flag word, and ref_glob (a matcher
+     written from the man page) — ties the fnmatch flag word of sort_by_file.c (no FNM_PERIOD / FNM_CASEFOLD / ...).
   B. whole tool: real gensquashfs (-S sort file, -T, -e, -b, -B, -c) and tar2sqfs (-T, -e) -> image -> raw decode
      (tools/sqfsraw.py, independent of libsquashfs) + `rdsquashfs -s` / `rdsquashfs -c` -> compared with
      `sqfsmodel c17 pack-run` on the same ordered file list and flags (compressed payloads supplied by the real
@@ -29,7 +33,8 @@ REQUIRED = ["Sqfs.C17." + n for n in (
     "dont_compress_words", "dont_fragment_effect", "nosparse_effect", "no_tail_packing_only_large",
     "no_tail_packing_layout", "dont_compress_effect", "dont_dedup_effect", "layout_follows_order",
     "directives_preserve_content", "export_table_ok", "quoted_name_decodes", "directives_preserve_tree",
-    "directives_preserve_size", "export_array_refines", "export_table_written", "export_table_of_tree", "exCodec_ok")]
+    "directives_preserve_size", "export_array_refines", "export_table_written", "export_table_of_tree", "exCodec_ok",
+    "sort_then_pack_flags", "no_sort_file_pack_flags", "flag_list_decodes")]
 ALL_ERR_KINDS = {"number", "overflow", "filename", "bracket", "flaglist", "afterflags", "unknownflag", "unmatched", "escape",
                  "trailing", "canon"}
 TOOL_TIMEOUT = 1800        # seconds; generous: a timeout is reported as a result of the real code, never hit by load alone
@@ -136,6 +141,39 @@ def gen_paths(rng, nmax=8):
     return out
 
 
+# part A only: names that tell the fnmatch flag word apart.  A leading '.' (of the path and of a component behind a '/')
+# is matched by a wild card only without FNM_PERIOD; mixed case tells FNM_CASEFOLD; a name with a glob character tells
+# FNM_NOESCAPE; `bin` against `bin/a` tells FNM_LEADING_DIR.
+DIRS_A = DIRS + [b".git", b"h/.b", b"Bin", b".cfg/sub", b"h"]
+NAMES_A = NAMES + [b".hidden", b".a", b".Xrc", b"Mk1", b"MK2", b"LIB.so", b"lib.SO", b"README", b"c", b".c.txt", b"A"]
+
+
+def dir_prefixes(p):
+    parts = p.split(b"/")
+    return {b"/".join(parts[:k]) for k in range(1, len(parts))}
+
+
+def gen_paths_a(rng, nmax=8):
+    """like gen_paths, with hidden names, hidden directories inside a path (`h/.b/c`) and mixed case in ~half of the lists"""
+    if rng.random() < 0.45:
+        return gen_paths(rng, nmax)
+    n = rng.randint(1, nmax)
+    files, dirs, out = set(), set(), []
+    tries = 0
+    while len(out) < n and tries < 200:
+        tries += 1
+        d = rng.choice(DIRS_A[:3] if rng.random() < 0.35 else DIRS_A)
+        nm = rng.choice(NAMES_A[len(NAMES):] if rng.random() < 0.6 else NAMES_A)
+        p = (d + b"/" + nm) if d else nm
+        pre = dir_prefixes(p)
+        if p in files or p in dirs or (pre & files) or p in DIRS_A:
+            continue
+        files.add(p)
+        dirs |= pre
+        out.append(p)
+    return out or [b"a"]
+
+
 def quote_name(p):
     return b'"' + p.replace(b"\\", b"\\\\").replace(b'"', b'\\"') + b'"'
 
@@ -146,6 +184,11 @@ def plain_ok(p):
 
 GLOBS = [b"*", b"bin/*", b"*.so", b"*/mk*", b"lib/lib?.so", b"[ab]", b"bin/?", b"*a*", b"*/*", b"bin/sub/*", b"lib*",
          b"*[!a]", b"d e/*"]
+# part A only (see DIRS_A): leading periods, components behind a slash, case, bracket classes, escapes, a bare directory name
+GLOBS_A = GLOBS + [b".*", b"*/.*", b"[.]*", b"[!.]*", b"*/[!.]*", b"?hidden", b"?*", b"h/*/c", b"h/.b/*", b"h/?b/*", b"*/*/*",
+                   b"h/*", b"[A-Z]*", b"[a-z]*", b"[[:upper:]]*", b"[[:lower:]]*", b"mk[0-9]", b"MK?", b"lib.SO", b"LIB.*", b"*.SO",
+                   b"BIN/*", b"Bin/*", b"readme", b"R*", b".git/*", b"*/.?*", b"*rc", b"\\*star", b"\\?", b"bin", b"h", b"*/[a-z]",
+                   b"[!A-Z]*", b"*.[sS][oO]", b".[a-z]*", b"*/.b/*", b"*c"]
 BIGP = [9223372036854775806, -9223372036854775806, 9223372036854775807, 18446744073709551615, 18446744073709551616,
         1844674407370955161, 1844674407370955160, 99999999999999999999, -9223372036854775807]
 
@@ -220,8 +263,9 @@ def gen_flags_token(rng, subset=None, glob=None, messy=False):
     return ("[" + body + "]").encode()
 
 
-def gen_line(rng, paths, valid_only=False):
+def gen_line(rng, paths, valid_only=False, globs=None):
     """one sort-file line (bytes, without newline)"""
+    globs = globs or GLOBS
     r = rng.random()
     if not valid_only and r < 0.06:
         return rng.choice([b"", b"   ", b"# comment", b"  # 5 a", b"#"])
@@ -243,7 +287,9 @@ def gen_line(rng, paths, valid_only=False):
     messy = (not valid_only) and rng.random() < 0.3
     if kind < 0.35:
         g = rng.choice([1, 2])
-        name = rng.choice(GLOBS) if rng.random() < 0.8 else rng.choice(paths)
+        name = rng.choice(globs) if rng.random() < 0.8 else rng.choice(paths)
+        if globs is not GLOBS and rng.random() < 0.2:       # a quoted pattern (unescaped, then used as the pattern)
+            name = quote_name(name)
         fl = gen_flags_token(rng, sub, g, messy)
     else:
         g = 0
@@ -262,9 +308,9 @@ def gen_line(rng, paths, valid_only=False):
     return lead + ps + ws + (fl + ws if fl else b"") + name + trail
 
 
-def gen_sortfile(rng, paths, valid_only=False):
+def gen_sortfile(rng, paths, valid_only=False, globs=None):
     n = rng.randint(0, 7)
-    lines = [gen_line(rng, paths, valid_only) for _ in range(n)]
+    lines = [gen_line(rng, paths, valid_only, globs) for _ in range(n)]
     eol = b"\r\n" if (not valid_only and rng.random() < 0.05) else b"\n"
     txt = eol.join(lines)
     if lines and rng.random() < 0.8:
@@ -457,6 +503,216 @@ def part_a(ctx, env, cases):
                 ctx.violation("sort-corr:" + vlib.sha(hl[j])[:12], "sort-file correspondence broke: impl=%s model=%s" % (rr[:300], mf[:300]),
                               replay, found_input=False)
     stats["disagreements"] = nbad
+    return stats
+
+
+# ------------------------------------------------------------------------------------------------ part A2: which files a glob line selects
+def ref_glob(pat, s, pathname):
+    """The documented matching (gensquashfs(1), SORT FILE FORMAT: "shell glob pattern"; `glob`: a wild card or a bracket
+    range cannot match a path separator; `glob_no_path`: they can), written out independently of libc: `*`, `?`,
+    `[set]` / `[!set]` / `[^set]` with ranges, backslash quotes the next character; nothing special about a leading
+    period, case sensitive, the whole path must match.  Only used for patterns of PATTERN_SETS' grammar (no classes, no
+    '/' inside brackets, no trailing backslash)."""
+    toks, i = [], 0
+    while i < len(pat):
+        c = pat[i]
+        if c == 0x5C and i + 1 < len(pat):
+            toks.append(("lit", pat[i + 1]))
+            i += 2
+        elif c == 0x2A:
+            toks.append(("star",))
+            i += 1
+        elif c == 0x3F:
+            toks.append(("any",))
+            i += 1
+        elif c == 0x5B:
+            j, neg = i + 1, False
+            if pat[j:j + 1] in (b"!", b"^"):
+                neg, j = True, j + 1
+            items, first = [], True
+            while j < len(pat) and (first or pat[j] != 0x5D):
+                first = False
+                if pat[j + 1:j + 2] == b"-" and j + 2 < len(pat) and pat[j + 2] != 0x5D:
+                    items.append((pat[j], pat[j + 2]))
+                    j += 3
+                else:
+                    items.append((pat[j], pat[j]))
+                    j += 1
+            if j >= len(pat):                      # no closing bracket: '[' stands for itself
+                toks.append(("lit", 0x5B))
+                i += 1
+            else:
+                toks.append(("set", neg, items))
+                i = j + 1
+        else:
+            toks.append(("lit", c))
+            i += 1
+    memo = {}
+
+    def m(ti, si):
+        k = (ti, si)
+        if k not in memo:
+            memo[k] = m1(ti, si)
+        return memo[k]
+
+    def m1(ti, si):
+        if ti == len(toks):
+            return si == len(s)
+        t = toks[ti]
+        if t[0] == "star":
+            k = si
+            while True:
+                if m(ti + 1, k):
+                    return True
+                if k >= len(s) or (pathname and s[k] == 0x2F):
+                    return False
+                k += 1
+        if si >= len(s):
+            return False
+        ch = s[si]
+        if t[0] == "lit":
+            return ch == t[1] and m(ti + 1, si + 1)
+        if pathname and ch == 0x2F:
+            return False
+        if t[0] == "any":
+            return m(ti + 1, si + 1)
+        return (any(a <= ch <= b for a, b in t[2]) != t[1]) and m(ti + 1, si + 1)
+
+    return m(0, 0)
+
+
+# one tree for the fixed table; every path is a regular file
+MATCH_TREE = [b".hidden", b"h/.b/c", b"h/.x", b"h/y", b"bin/a", b"bin/sub/x", b"Mk1", b"mk1", b"LIB.so", b"lib.so", b"*star",
+              b"README", b".git/config", b"Bin/a", b"x/.b/.c"]
+# (glob kind: 2 = `glob` (FNM_PATHNAME), 1 = `glob_no_path` (0); pattern; path; selected?) — written by hand from the man page,
+# each row names the fnmatch flag whose presence (or, for FNM_PATHNAME, absence) would flip it
+MATCH_TABLE = [
+    (2, b"*", b".hidden", 1), (1, b"*", b".hidden", 1), (2, b".*", b".hidden", 1), (2, b".*", b"mk1", 0),          # FNM_PERIOD
+    (2, b"?hidden", b".hidden", 1), (2, b"[.]hidden", b".hidden", 1), (2, b"[!a]hidden", b".hidden", 1),              # FNM_PERIOD
+    (2, b"h/*", b"h/.x", 1), (2, b"h/*", b"h/y", 1), (2, b"h/*/c", b"h/.b/c", 1), (2, b"*/?b/c", b"h/.b/c", 1),       # FNM_PERIOD|PATHNAME
+    (2, b"*/*/*", b"x/.b/.c", 1), (1, b"h*c", b"h/.b/c", 1), (1, b"*", b"x/.b/.c", 1), (1, b"x/*", b"x/.b/.c", 1),
+    (2, b"*", b"bin/a", 0), (1, b"*", b"bin/a", 1), (2, b"h*c", b"h/.b/c", 0), (2, b"bin/*", b"bin/sub/x", 0),      # FNM_PATHNAME
+    (1, b"bin/*", b"bin/sub/x", 1), (2, b"bin?a", b"bin/a", 0), (1, b"bin?a", b"bin/a", 1), (2, b"bin[!x]a", b"bin/a", 0),
+    (1, b"bin[!x]a", b"bin/a", 1),
+    (2, b"mk1", b"Mk1", 0), (2, b"MK1", b"mk1", 0), (2, b"mk1", b"mk1", 1), (2, b"[a-z]*", b"Mk1", 0), (2, b"[A-Z]*", b"Mk1", 1),  # FNM_CASEFOLD
+    (2, b"[A-Z]*", b"mk1", 0), (2, b"lib.so", b"LIB.so", 0), (2, b"*.so", b"LIB.so", 1), (2, b"*.SO", b"lib.so", 0),
+    (1, b"bin/A", b"bin/a", 0), (2, b"readme", b"README", 0), (2, b"bin/*", b"Bin/a", 0), (2, b"Bin/*", b"Bin/a", 1),
+    (2, b"[!.]*", b".hidden", 0), (2, b"[!.]*", b"mk1", 1), (2, b"[^.]*", b"README", 1),
+    (2, b"\\*star", b"*star", 1), (2, b"\\*", b"mk1", 0), (2, b"\\m\\k1", b"mk1", 1), (2, b"[*]star", b"*star", 1),   # FNM_NOESCAPE
+    (2, b"bin", b"bin/a", 0), (1, b"bin", b"bin/a", 0), (2, b"h", b"h/y", 0), (2, b"bin/sub", b"bin/sub/x", 0),         # FNM_LEADING_DIR
+    (2, b"", b"mk1", 0), (2, b"*1", b"mk1", 1), (2, b"*1", b"Mk1", 1), (2, b"m*", b"mk1", 1), (2, b"m", b"mk1", 0),
+]
+PATTERN_SETS = [b"[abc]", b"[a-z]", b"[A-Z]", b"[!.]", b"[.]", b"[!a-z]", b"[0-9]", b"[.a]", b"[^A-Z]", b"[a-zA-Z]", b"[!x]", b"[.-z]"]
+PATTERN_LIT = b"abchklmsxyAKLMRS1.-_"
+
+
+def gen_pattern(rng, paths):
+    """a pattern of the reference grammar; mostly derived from one of the paths so that it matches something"""
+    if rng.random() < 0.75:
+        p = rng.choice(paths)
+        if any(c in b'*?[]\\"' or c > 126 or c < 33 for c in p):
+            p = b"h/.b/c"
+        out, i = b"", 0
+        while i < len(p):
+            c = p[i:i + 1]
+            r = rng.random()
+            if r < 0.12:
+                out += b"?"
+            elif r < 0.20:
+                out += rng.choice(PATTERN_SETS)
+            elif r < 0.32:
+                out += b"*"
+                i += rng.randint(0, 4)
+            elif r < 0.38 and c.isalpha():
+                out += c.swapcase()
+            elif r < 0.42 and c != b"/":      # (glibc does not let `*\\/` match a slash under FNM_PATHNAME: outside the grammar)
+                out += b"\\" + c
+            else:
+                out += c
+            i += 1
+        if rng.random() < 0.1:
+            out = out.rstrip(b"/") or b"*"
+        return out.lstrip(b"/") or b"*"
+    n = rng.randint(1, 6)
+    out = b""
+    for _ in range(n):
+        r = rng.random()
+        out += (b"*" if r < 0.3 else b"?" if r < 0.4 else rng.choice(PATTERN_SETS) if r < 0.55 else b"/" if r < 0.65
+                else b"." if r < 0.75 else bytes([rng.choice(PATTERN_LIT)]))
+    return out.strip(b"/") or b"*"
+
+
+def part_a_match(ctx, env, quick):
+    """Which files does a `glob` / `glob_no_path` line select?  The real fstree_sort_files (one-line sort file
+    `1 [glob] "pattern"`, priority 1 = selected) against (a) the hand-written table, (b) libc's fnmatch called with the
+    documented flag word — FNM_PATHNAME for glob, 0 for glob_no_path, nothing else — (c) the reference matcher above."""
+    rng = ctx.rng
+    cases = []          # (paths, kind, pattern as written in the sort file, use reference matcher)
+    for g, pat in sorted({(g, pat) for g, pat, _, _ in MATCH_TABLE}):
+        cases.append((MATCH_TREE, g, pat, True))
+    for pat in GLOBS_A:
+        for g in (1, 2):
+            cases.append((MATCH_TREE, g, pat, False))
+    for _ in range(400 if quick else 4000):
+        paths = gen_paths_a(rng, 10)
+        cases.append((paths, rng.choice([1, 2]), gen_pattern(rng, paths), True))
+    jobs_sf = [b"1 [%s] %s\n" % (b"glob" if g == 2 else b"glob_no_path", quote_name(pat)) for _, g, pat, _ in cases]
+    hl = [harness_sort_line(paths, sf, []) for (paths, _, _, _), sf in zip(cases, jobs_sf)]
+    try:
+        real = env.run_harness(hl)
+    except HarnessCrash as e:
+        ctx.violation("crash:" + vlib.sha(e.line)[:12], "fstree_sort_files harness aborted (rc=%s): %s" % (e.rc, san_summary(e.err)),
+                      {"kind": "sort", "harness_line": e.line, "stderr": e.err})
+        return {"match_cases": 0}
+    jobs = []
+    for (paths, g, pat, _), line, h in zip(cases, real, hl):
+        if line == "bad-op":
+            raise vlib.CheckFailure("sort harness did not understand: %s" % h[:300])
+        init, rr, _frame = split_sort_answer(line)
+        jobs.append((init, rr))
+    _m, per, bits = model_sort(env, [(init, sf, False) for (init, _), sf in zip(jobs, jobs_sf)], "fix")
+    stats = {"match_cases": len(cases), "pairs": 0, "selected": 0, "table_rows": 0, "hidden_selected_by_wildcard": 0,
+             "case_only_differs": 0, "ref_pairs": 0, "bad": 0}
+    table = {}
+    for g, pat, path, want in MATCH_TABLE:
+        table.setdefault((g, pat), {})[path] = want
+    for j, ((paths, g, pat, use_ref), (init, rr), h) in enumerate(zip(cases, jobs, hl)):
+        res = parse_sorted(rr)
+        if res is None and rr.startswith("err") and any(d.startswith("err") and d.split()[1] == rr.split()[1] for d in per[j]):
+            stats["rejected"] = stats.get("rejected", 0) + 1      # e.g. a `..` component in the pattern: both refuse the line
+            continue
+        dec = [d.split() for d in per[j] if d.startswith("ok")]
+        if res is None or len(dec) != 1 or dec[0][3] != str(g) or len(bits[j]) != len(init):
+            raise vlib.CheckFailure("part A2: line not accepted as one glob line: %r -> impl %s model %s" % (jobs_sf[j], rr[:200], per[j]))
+        cpat = unhx(dec[0][4])                                     # the pattern after decode_filename (canonicalize_name)
+        got = {p: (1 if prio == 1 else 0) for p, prio, _ in res}
+        problems = []
+        for k, p in enumerate(init):
+            stats["pairs"] += 1
+            stats["selected"] += got[p]
+            libc = int(bits[j][k])
+            if got[p] != libc:
+                problems.append("%r: selected=%d, fnmatch(pattern, path, %s)==0 is %d" % (p, got[p], "FNM_PATHNAME" if g == 2 else "0", libc))
+            if use_ref:
+                stats["ref_pairs"] += 1
+                want = 1 if ref_glob(cpat, p, g == 2) else 0
+                if got[p] != want:
+                    problems.append("%r: selected=%d, documented glob semantics say %d" % (p, got[p], want))
+                if want and any(c.startswith(b".") for c in p.split(b"/")) and ref_glob(cpat, p.replace(b".", b"x"), g == 2):
+                    stats["hidden_selected_by_wildcard"] += 1      # (approximate: the period was matched by a wild card or set)
+                if not want and ref_glob(cpat.lower(), p.lower(), g == 2):
+                    stats["case_only_differs"] += 1
+            if (g, pat) in table and p in table[(g, pat)] and paths is MATCH_TREE:
+                stats["table_rows"] += 1
+                if got[p] != table[(g, pat)][p]:
+                    problems.append("%r: selected=%d, table says %d" % (p, got[p], table[(g, pat)][p]))
+        if problems:
+            stats["bad"] += 1
+            if stats["bad"] <= 3:
+                ctx.violation("glob-match:" + vlib.sha(h)[:12], "a [%s] line selects other files than the documented shell-glob matching "
+                              "(fnmatch with flag word %s only; no FNM_PERIOD/FNM_CASEFOLD/FNM_NOESCAPE/FNM_LEADING_DIR): pattern %r: %s" % (
+                                  "glob" if g == 2 else "glob_no_path", "FNM_PATHNAME" if g == 2 else "0", cpat, "; ".join(problems)[:800]),
+                              {"kind": "sort", "harness_line": h, "impl": rr, "pattern": cpat.decode("latin1"), "glob_kind": g})
     return stats
 
 
@@ -1604,6 +1860,15 @@ def run(ctx):
                       {"correspondence": "tools/checks/c17.py F_* vs Sqfs/Generated/Consts.lean"}, found_input=False)
     env = Env(ctx)
     quick = ctx.quick()
+    # the flag names spelled out as byte lists in Sort.lean are the strings of decode_flags; pack_file's `flags |= DONT_FRAGMENT`
+    # on the C flag word (C17Mkfs.packFileFlags) seen through Flags.ofNat is effectiveFlags (theorem ofNat_packFileFlags; evaluated too)
+    pf = [(nt, b, sz, fl) for nt in (0, 1) for b, sz in ((4096, 4096), (4096, 4097), (131072, 5), (131072, 131073)) for fl in range(32)]
+    ans = env.run_model(["flagnames"] + ["packflags %d %d %d %d" % t for t in pf] + ["effective %d %d %d %d" % t for t in pf])
+    want = [fl | (F_DF if nt and sz > b else 0) for nt, b, sz, fl in pf]
+    if ans[0] != "ok" or [int(x) for x in ans[1:1 + len(pf)]] != want or \
+            [int(x) for x in ans[1 + len(pf):]] != want:
+        ctx.violation("model:C17-flagwords", "flag names / pack_file flag word of the model differ from the source's: %s" % ans[:3],
+                      {"correspondence": "Sqfs/Model/Sort.lean nm*, Sqfs/Model/C17Mkfs.lean packFileFlags vs mkfs.c:35-37"}, found_input=False)
     # ---- part A ------------------------------------------------------------------------------------------------
     cases_a = []
     cdir = vlib.CORPUS / "C17"
@@ -1614,11 +1879,11 @@ def run(ctx):
                             [(k, bytes.fromhex(q), None if x is None else bytes.fromhex(x)) for k, q, x in j.get("others", [])]))
     ncorpus_a = len(cases_a)
     for _ in range(4000 if quick else 30000):
-        paths = gen_paths(ctx.rng)
+        paths = gen_paths_a(ctx.rng)
         extras = gen_extras(ctx.rng, paths) if ctx.rng.random() < 0.3 else []
         # lines may name the other nodes too (a hard link, a directory, a symlink): they select nothing
         cand = paths + [q for _, q, _ in extras if ctx.rng.random() < 0.5]
-        sf = gen_sortfile(ctx.rng, cand)
+        sf = gen_sortfile(ctx.rng, cand, globs=GLOBS_A)
         if ctx.rng.random() < 0.25:                 # several files at distinct wide priorities in one sort file
             ps = ctx.rng.sample(paths, min(len(paths), ctx.rng.randint(2, 4)))
             sf = b"".join(str(gen_prio(ctx.rng) if ctx.rng.random() < 0.3 else ctx.rng.choice(WIDEP)).encode() + b" " +
@@ -1644,6 +1909,12 @@ def run(ctx):
     missing = ALL_ERR_KINDS - set(sa.get("err_kinds", {}))
     if sa.get("sort_cases") and missing:
         raise vlib.CheckFailure("part A never exercised the rejection(s) %s" % sorted(missing))
+    sm = part_a_match(ctx, env, quick)
+    ctx.log("part A2 (glob matching): %s" % sm)
+    sa["glob_matching"] = sm
+    if not ctx.violations and (sm.get("table_rows", 0) < len(set(MATCH_TABLE)) or sm.get("hidden_selected_by_wildcard", 0) < 20
+                               or sm.get("case_only_differs", 0) < 20 or sm.get("selected", 0) < sm.get("pairs", 0) // 20):
+        raise vlib.CheckFailure("part A2 degenerated: %s" % sm)
     # ---- part C: the export table of dir_writer.c alone -----------------------------------------------------------
     cases_c = [gen_export_case(ctx.rng, i, quick) for i in range(160 if quick else 700)]
     # fixed shapes first: exactly at and just beyond the initial capacity and the first metadata block
@@ -1742,12 +2013,14 @@ def run(ctx):
         "part_a": sa, "part_b": summary, "part_b_histogram": hist, "part_c": sc,
     })
     return ctx.finish(LEVEL, trusted_extra=[
-        "fnmatch(3) is not modelled: the model's match queries are answered by libc",
+        "fnmatch(3) is not modelled: the model's match queries are answered by libc's fnmatch called with the documented flag word "
+        "(FNM_PATHNAME / 0); what the real fstree_sort_files selects is compared with that, a hand-written table and a reference matcher",
         "block codecs (gzip/xz/lz4/zstd) are a parameter of specPack; their outputs are supplied by the real compressor of the working tree "
         "(size oracle) and the read-back theorem assumes the Codec round-trip contract",
         "modelled: bin/gensquashfs/src/sort_by_file.c (+ parse_int, split_line, trim), the flag hand-over in mkfs.c / tar2sqfs "
         "process_tarball.c, and the data layout of lib/sqfs/src/block_processor/*.c + block_writer.c as the functional specification specPack "
-        "(its refinement by the queue/thread implementation model is C02's obligation), export table of dir_writer.c",
+        "(its refinement by the queue/thread implementation model is proved in C02: Sqfs.C02.run_eq_specPack / threaded_eq_specPack / "
+        "threaded_directives), export table of dir_writer.c",
         "tools/sqfsraw.py (independent image reader) and rdsquashfs -s/-c as decoders of the real layout (cross-checked against each other)"],
         assumptions=["file paths in a tree are pairwise distinct (hypothesis of first_match_wins)",
                      "Codec.Ok (compress strictly smaller and non-empty, uncompress inverts) for the read-back theorems"])
